@@ -156,7 +156,7 @@ def bodyExpected (outcome : Bytes → BodyOutcome) (data : Bytes) : Bytes :=
 theorem bodyPhase_readable (req : Bool) (outcome : Bytes → BodyOutcome) (r : Req) (data : Bytes)
     (h : Coherent r data) :
     (bodyPhase req outcome r).1.body = some (bodyExpected outcome data) ∧
-    (outcome data ≠ .rewriteFails → GetOK (bodyPhase req outcome r).1 (bodyExpected outcome data)) ∧
+    GetOK (bodyPhase req outcome r).1 (bodyExpected outcome data) ∧
     (r.contentLength = data.length →
       (bodyPhase req outcome r).1.contentLength = (bodyExpected outcome data).length) := by
   obtain ⟨hb, hg⟩ := h
@@ -167,17 +167,14 @@ theorem bodyPhase_readable (req : Bool) (outcome : Bytes → BodyOutcome) (r : R
   unfold bodyPhase bodyExpected
   simp only [hb]
   cases data with
-  | nil => exact ⟨c1.1, fun _ => c1.2, c2⟩
+  | nil => exact ⟨c1.1, c1.2, c2⟩
   | cons x xs =>
     simp only
     cases ho : outcome (x :: xs) with
-    | reject => exact ⟨c1.1, fun _ => c1.2, c2⟩
-    | accept => exact ⟨c1.1, fun _ => c1.2, c2⟩
+    | reject => exact ⟨c1.1, c1.2, c2⟩
+    | accept => exact ⟨c1.1, c1.2, c2⟩
     | rewrite nd => simp [GetOK]
-    | rewriteFails =>
-      refine ⟨?_, fun hne => absurd rfl hne, ?_⟩
-      · cases r.getBody <;> simp [c1.1]
-      · intro hc; cases r.getBody <;> simp [c2 hc]
+    | rewriteFails => exact ⟨c1.1, c1.2, c2⟩
 
 /-- The bytes the next handler is entitled to after the whole validation: the original ones, or the re-encoded
 body when the body phase ran and set defaults. -/
@@ -188,23 +185,326 @@ def expectedAfter (c : Cfg) (outcome : Bytes → BodyOutcome) (r : Req) (data : 
 theorem validateStream_coherent (c : Cfg) (outcome : Bytes → BodyOutcome) (r : Req) (data : Bytes)
     (h : Coherent r data) :
     (validateStream c outcome r).1.body = some (expectedAfter c outcome r data) ∧
-    (outcome data ≠ .rewriteFails → GetOK (validateStream c outcome r).1 (expectedAfter c outcome r data)) ∧
+    GetOK (validateStream c outcome r).1 (expectedAfter c outcome r data) ∧
     (r.contentLength = data.length →
       (validateStream c outcome r).1.contentLength = (expectedAfter c outcome r data).length) := by
   obtain ⟨hc, hl, _⟩ := secPhase_coherent c.hasAuthFunc r c.reqs data h
   unfold validateStream expectedAfter
   cases h1 : (!(secPhase c.hasAuthFunc r c.reqs).2.1 && !c.multi) with
-  | true => simp only [h1, Bool.true_or, ↓reduceIte]; exact ⟨hc.1, fun _ => hc.2, hl⟩
+  | true => simp only [h1, Bool.true_or, ↓reduceIte]; exact ⟨hc.1, hc.2, hl⟩
   | false =>
     cases h2 : (!c.paramsOK && !c.multi) with
-    | true => simp only [h1, h2, Bool.false_eq_true, Bool.true_or, Bool.or_true, ↓reduceIte]; exact ⟨hc.1, fun _ => hc.2, hl⟩
+    | true => simp only [h1, h2, Bool.false_eq_true, Bool.true_or, Bool.or_true, ↓reduceIte]; exact ⟨hc.1, hc.2, hl⟩
     | false =>
       cases h3 : c.hasBodySpec with
-      | false => simp only [h1, h2, h3, Bool.false_eq_true, Bool.not_false, Bool.or_true, ↓reduceIte]; exact ⟨hc.1, fun _ => hc.2, hl⟩
+      | false => simp only [h1, h2, h3, Bool.false_eq_true, Bool.not_false, Bool.or_true, ↓reduceIte]; exact ⟨hc.1, hc.2, hl⟩
       | true =>
         simp only [h1, h2, h3, Bool.false_eq_true, Bool.not_true, Bool.or_false, ↓reduceIte]
         obtain ⟨b1, b2, b3⟩ := bodyPhase_readable c.required outcome _ data hc
         exact ⟨b1, b2, fun hcl => b3 (hl hcl)⟩
 
+
+/-! ### a second validation of the stream changes nothing -/
+
+/-- the form validation leaves a request in once it has read its body: GetBody rewinds to what Body holds -/
+def Settled (r : Req) (e : Bytes) : Prop := r.body = some e ∧ r.getBody = .ok e
+
+theorem settled_coherent (r : Req) (e : Bytes) (h : Settled r e) : Coherent r e :=
+  ⟨h.1, fun b hb => by rw [h.2] at hb; cases hb; rfl⟩
+
+theorem restore_settled (r : Req) (e : Bytes) (h : Settled r e) : restore (drain r) e = r := by
+  obtain ⟨h1, h2⟩ := h
+  cases r
+  simp_all [restore, drain]
+
+/-- the verdict of a requirement depends on its schemes only -/
+def verdictOf : List Scheme → Bool
+  | [] => true
+  | s :: rest => s.declared && s.auth.ok && verdictOf rest
+
+theorem schemeLoop_verdict (data : Bytes) : ∀ (l : List Scheme) (r : Req), (schemeLoop data r l).2.1 = verdictOf l
+  | [], r => rfl
+  | s :: rest, r => by
+    unfold schemeLoop verdictOf
+    cases hd : s.declared <;> cases ha : s.auth.ok <;> simp [schemeLoop_verdict data rest]
+
+theorem schemeLoopNoBody_verdict : ∀ (l : List Scheme) (r : Req), (schemeLoopNoBody r l).2.1 = verdictOf l
+  | [], r => rfl
+  | s :: rest, r => by
+    unfold schemeLoopNoBody verdictOf
+    cases hd : s.declared <;> cases ha : s.auth.ok <;> simp [schemeLoopNoBody_verdict rest]
+
+theorem secReq_verdict (f : Bool) (r : Req) (l : List Scheme) : (secReq f r l).2.1 = (f && verdictOf l) := by
+  unfold secReq
+  cases f with
+  | false => rfl
+  | true =>
+    cases hb : r.body with
+    | none => simp [schemeLoopNoBody_verdict]
+    | some d => simp [schemeLoop_verdict]
+
+/-- with a working GetBody the scheme loop changes nothing but (possibly) the read position -/
+theorem schemeLoop_fields (data e : Bytes) : ∀ (l : List Scheme) (r : Req), r.getBody = .ok e →
+    (schemeLoop data r l).1.getBody = .ok e ∧ (schemeLoop data r l).1.contentLength = r.contentLength
+  | [], r, h => ⟨h, rfl⟩
+  | s :: rest, r, h => by
+    have hr : restore r data = { r with body := some e } := by unfold restore; rw [h]
+    have hg : (runAuth (restore r data) s.auth).getBody = .ok e := by
+      rw [hr]; unfold runAuth drain; split <;> exact h
+    have hc : (runAuth (restore r data) s.auth).contentLength = r.contentLength := by
+      rw [runAuth_cl, hr]
+    unfold schemeLoop
+    cases hd : s.declared with
+    | false => exact ⟨h, rfl⟩
+    | true =>
+      cases ha : s.auth.ok with
+      | false => exact ⟨hg, hc⟩
+      | true =>
+        simp only [Bool.not_true, Bool.false_eq_true, if_false, if_true]
+        obtain ⟨i1, i2⟩ := schemeLoop_fields data e rest _ hg
+        exact ⟨i1, i2.trans hc⟩
+
+theorem secReq_settled (f : Bool) (r : Req) (l : List Scheme) (e : Bytes) (h : Settled r e) : (secReq f r l).1 = r := by
+  unfold secReq
+  cases f with
+  | false => rfl
+  | true =>
+    simp only [Bool.not_true, Bool.false_eq_true, if_false, h.1]
+    obtain ⟨i1, i2⟩ := schemeLoop_fields e e l (drain r) (by simpa [drain] using h.2)
+    obtain ⟨h1, h2⟩ := h
+    have : restore (schemeLoop e (drain r) l).1 e =
+        { body := some e, getBody := .ok e, contentLength := (drain r).contentLength } := by
+      unfold restore; rw [i1, i2]
+    rw [this]
+    cases r
+    simp_all [drain]
+
+theorem secReqs_settled (f : Bool) (e : Bytes) : ∀ (qs : List (List Scheme)) (r : Req), Settled r e → (secReqs f r qs).1 = r
+  | [], r, _ => rfl
+  | q :: rest, r, h => by
+    unfold secReqs
+    cases hb : (secReq f r q).2.1 with
+    | true => simp only [hb, ↓reduceIte]; exact secReq_settled f r q e h
+    | false =>
+      simp only [hb, Bool.false_eq_true, ↓reduceIte]
+      rw [secReq_settled f r q e h]; exact secReqs_settled f e rest r h
+
+theorem secPhase_settled (f : Bool) (r : Req) (qs : List (List Scheme)) (e : Bytes) (h : Settled r e) :
+    (secPhase f r qs).1 = r := by
+  unfold secPhase
+  cases qs with
+  | nil => rfl
+  | cons q rest => exact secReqs_settled f e (q :: rest) r h
+
+theorem secReqs_verdict (f : Bool) : ∀ (qs : List (List Scheme)) (r r' : Req), (secReqs f r qs).2.1 = (secReqs f r' qs).2.1
+  | [], _, _ => rfl
+  | q :: rest, r, r' => by
+    unfold secReqs
+    have e1 := secReq_verdict f r q
+    have e2 := secReq_verdict f r' q
+    cases hv : (f && verdictOf q) with
+    | true => rw [hv] at e1 e2; simp [e1, e2]
+    | false =>
+      rw [hv] at e1 e2
+      simp only [e1, e2, Bool.false_eq_true, ↓reduceIte]
+      exact secReqs_verdict f rest _ _
+
+/-- the verdict of the security phase does not depend on the request's stream state -/
+theorem secPhase_verdict (f : Bool) (qs : List (List Scheme)) (r r' : Req) : (secPhase f r qs).2.1 = (secPhase f r' qs).2.1 := by
+  unfold secPhase
+  cases qs with
+  | nil => rfl
+  | cons q rest => exact secReqs_verdict f (q :: rest) r r'
+
+/-- after a requirement that reads the body the request is settled; one that does not read leaves it alone -/
+theorem secReq_result (f : Bool) (r : Req) (l : List Scheme) (data : Bytes) (h : Coherent r data) :
+    (secReq f r l).1 = r ∨ Settled (secReq f r l).1 data := by
+  obtain ⟨hb, hg⟩ := h
+  unfold secReq
+  cases f with
+  | false => exact Or.inl rfl
+  | true =>
+    right
+    simp only [Bool.not_true, Bool.false_eq_true, if_false, hb]
+    obtain ⟨i1, _, _⟩ := schemeLoop_inv data l (drain r) (drain_getOK r data hg)
+    refine ⟨restore_body _ data i1, ?_⟩
+    unfold restore
+    cases hgb : (schemeLoop data (drain r) l).1.getBody with
+    | ok b => simp only; rw [i1 b hgb]
+    | none => rfl
+    | fails => rfl
+
+theorem secReqs_result (f : Bool) (data : Bytes) : ∀ (qs : List (List Scheme)) (r : Req), Coherent r data →
+    (secReqs f r qs).1 = r ∨ Settled (secReqs f r qs).1 data
+  | [], r, _ => Or.inl rfl
+  | q :: rest, r, h => by
+    unfold secReqs
+    cases hb : (secReq f r q).2.1 with
+    | true => simp only [hb, ↓reduceIte]; exact secReq_result f r q data h
+    | false =>
+      simp only [hb, Bool.false_eq_true, ↓reduceIte]
+      rcases secReq_result f r q data h with e | hs
+      · rw [e]; exact secReqs_result f data rest r h
+      · right; rw [secReqs_settled f data rest _ hs]; exact hs
+
+theorem secPhase_result (f : Bool) (r : Req) (qs : List (List Scheme)) (data : Bytes) (h : Coherent r data) :
+    (secPhase f r qs).1 = r ∨ Settled (secPhase f r qs).1 data := by
+  unfold secPhase
+  cases qs with
+  | nil => exact Or.inl rfl
+  | cons q rest => exact secReqs_result f data (q :: rest) r h
+
+/-- the body phase on a settled request: nothing changes unless other bytes are written -/
+theorem bodyPhase_settled (req : Bool) (outcome : Bytes → BodyOutcome) (r : Req) (e : Bytes) (h : Settled r e)
+    (hst : ∀ nd, e ≠ [] → outcome e = .rewrite nd → nd = e ∧ r.contentLength = e.length) : (bodyPhase req outcome r).1 = r := by
+  unfold bodyPhase
+  simp only [h.1, restore_settled r e h]
+  cases e with
+  | nil => rfl
+  | cons x xs =>
+    simp only
+    cases ho : outcome (x :: xs) with
+    | reject => rfl
+    | accept => rfl
+    | rewriteFails => rfl
+    | rewrite nd =>
+      obtain ⟨e1, e2⟩ := hst nd (by simp) ho
+      obtain ⟨h1, h2⟩ := h
+      subst e1
+      cases r
+      simp_all
+
+/-- after the body phase the request is settled on what the next handler reads -/
+theorem bodyPhase_result (req : Bool) (outcome : Bytes → BodyOutcome) (r : Req) (data : Bytes) (h : Coherent r data) :
+    Settled (bodyPhase req outcome r).1 (bodyExpected outcome data) ∧
+    (∀ nd, outcome data = .rewrite nd → data ≠ [] → (bodyPhase req outcome r).1.contentLength = nd.length) := by
+  obtain ⟨hb, hg⟩ := h
+  have hg' := drain_getOK r data hg
+  have hs : Settled (restore (drain r) data) data := by
+    refine ⟨restore_body _ data hg', ?_⟩
+    unfold restore
+    cases hgb : (drain r).getBody with
+    | ok b => simp only; rw [hg' b hgb]
+    | none => rfl
+    | fails => rfl
+  unfold bodyPhase bodyExpected
+  simp only [hb]
+  cases data with
+  | nil => exact ⟨hs, fun _ _ hne => absurd rfl hne⟩
+  | cons x xs =>
+    simp only
+    cases ho : outcome (x :: xs) with
+    | reject => exact ⟨hs, fun _ hh => by cases hh⟩
+    | accept => exact ⟨hs, fun _ hh => by cases hh⟩
+    | rewriteFails => exact ⟨hs, fun _ hh => by cases hh⟩
+    | rewrite nd => exact ⟨⟨rfl, rfl⟩, fun nd' hh _ => by cases hh; rfl⟩
+
+theorem validateStream_fst (c : Cfg) (outcome : Bytes → BodyOutcome) (r : Req) :
+    (validateStream c outcome r).1 =
+      if (!(secPhase c.hasAuthFunc r c.reqs).2.1 && !c.multi) || (!c.paramsOK && !c.multi) || !c.hasBodySpec
+      then (secPhase c.hasAuthFunc r c.reqs).1
+      else (bodyPhase c.required outcome (secPhase c.hasAuthFunc r c.reqs).1).1 := by
+  unfold validateStream
+  generalize secPhase c.hasAuthFunc r c.reqs = sp
+  obtain ⟨r1, secOK, seen⟩ := sp
+  cases secOK <;> cases hm : c.multi <;> cases hp : c.paramsOK <;> cases hb : c.hasBodySpec <;> simp [hm, hp, hb]
+
+theorem validateStream_snd (c : Cfg) (outcome : Bytes → BodyOutcome) (r : Req) :
+    (validateStream c outcome r).2 =
+      if (!(secPhase c.hasAuthFunc r c.reqs).2.1 && !c.multi) || (!c.paramsOK && !c.multi) then false
+      else if c.hasBodySpec then
+        ((secPhase c.hasAuthFunc r c.reqs).2.1 && c.paramsOK && (bodyPhase c.required outcome (secPhase c.hasAuthFunc r c.reqs).1).2)
+      else ((secPhase c.hasAuthFunc r c.reqs).2.1 && c.paramsOK) := by
+  unfold validateStream
+  generalize secPhase c.hasAuthFunc r c.reqs = sp
+  obtain ⟨r1, secOK, seen⟩ := sp
+  cases secOK <;> cases hm : c.multi <;> cases hp : c.paramsOK <;> cases hb : c.hasBodySpec <;> simp [hm, hp, hb]
+
+/-- the verdict of the body phase on a request whose body holds `d` -/
+def bodyVerdict (req : Bool) (outcome : Bytes → BodyOutcome) (d : Bytes) : Bool :=
+  match d with
+  | [] => !req
+  | _ => match outcome d with | .reject => false | .accept => true | .rewrite _ => true | .rewriteFails => false
+
+theorem bodyPhase_snd (req : Bool) (outcome : Bytes → BodyOutcome) (r : Req) (d : Bytes) (h : r.body = some d) :
+    (bodyPhase req outcome r).2 = bodyVerdict req outcome d := by
+  unfold bodyPhase bodyVerdict
+  simp only [h]
+  cases d with
+  | nil => rfl
+  | cons x xs => simp only; cases outcome (x :: xs) <;> rfl
+
+/-- **A second validation leaves the stream exactly as the first one left it** — Body, GetBody and ContentLength —
+    whatever the verdicts, provided the value layer does not rewrite the rewritten body into yet other bytes. -/
+theorem validateStream_idem (c : Cfg) (outcome : Bytes → BodyOutcome) (r : Req) (data : Bytes) (h : Coherent r data)
+    (H : ∀ nd nd', outcome data = .rewrite nd → outcome nd = .rewrite nd' → nd' = nd) :
+    (validateStream c outcome (validateStream c outcome r).1).1 = (validateStream c outcome r).1 := by
+  obtain ⟨hc, _, _⟩ := secPhase_coherent c.hasAuthFunc r c.reqs data h
+  have hres := secPhase_result c.hasAuthFunc r c.reqs data h
+  have hv : ∀ r', (secPhase c.hasAuthFunc r' c.reqs).2.1 = (secPhase c.hasAuthFunc r c.reqs).2.1 :=
+    fun r' => secPhase_verdict c.hasAuthFunc c.reqs r' r
+  rw [validateStream_fst c outcome r]
+  split
+  · -- the body phase did not run: the request is as the security phase left it
+    rename_i hcond
+    rw [validateStream_fst, hv, if_pos hcond]
+    rcases hres with e | hs
+    · rw [e, e]
+    · exact secPhase_settled _ _ _ data hs
+  · rename_i hcond
+    obtain ⟨hs2, hcl⟩ := bodyPhase_result c.required outcome _ data hc
+    rw [validateStream_fst, hv, if_neg hcond, secPhase_settled _ _ _ _ hs2]
+    apply bodyPhase_settled c.required outcome _ _ hs2
+    intro nd hne ho
+    unfold bodyExpected at hne ho ⊢
+    cases data with
+    | nil => exact absurd rfl hne
+    | cons x xs =>
+      simp only at hne ho ⊢
+      cases ho1 : outcome (x :: xs) with
+      | rewrite nd0 =>
+        simp only [ho1] at ho ⊢
+        exact ⟨H nd0 nd ho1 ho, hcl nd0 ho1 (by simp)⟩
+      | reject => simp only [ho1] at ho; cases ho
+      | accept => simp only [ho1] at ho; cases ho
+      | rewriteFails => simp only [ho1] at ho; cases ho
+
+/-- … and its verdict is the first one's when the rewritten body is accepted (as it is, or re-encoded to the same bytes) -/
+theorem validateStream_idem_verdict (c : Cfg) (outcome : Bytes → BodyOutcome) (r : Req) (data : Bytes) (h : Coherent r data)
+    (H : ∀ nd, outcome data = .rewrite nd → nd ≠ [] ∧ (outcome nd = .accept ∨ outcome nd = .rewrite nd)) :
+    (validateStream c outcome (validateStream c outcome r).1).2 = (validateStream c outcome r).2 := by
+  obtain ⟨hc, _, _⟩ := secPhase_coherent c.hasAuthFunc r c.reqs data h
+  have hres := secPhase_result c.hasAuthFunc r c.reqs data h
+  have hv : ∀ r', (secPhase c.hasAuthFunc r' c.reqs).2.1 = (secPhase c.hasAuthFunc r c.reqs).2.1 :=
+    fun r' => secPhase_verdict c.hasAuthFunc c.reqs r' r
+  rw [validateStream_snd c outcome (validateStream c outcome r).1, validateStream_snd c outcome r, hv]
+  split
+  · rfl
+  · split
+    · -- both passes run the body phase
+      rename_i hc1 hb
+      have hcond : ¬ ((!(secPhase c.hasAuthFunc r c.reqs).2.1 && !c.multi) || (!c.paramsOK && !c.multi) || !c.hasBodySpec) = true := by
+        simp only [hb, Bool.not_true, Bool.or_false]; exact hc1
+      rw [validateStream_fst c outcome r, if_neg hcond]
+      obtain ⟨hs2, _⟩ := bodyPhase_result c.required outcome _ data hc
+      rw [secPhase_settled _ _ _ _ hs2]
+      rw [bodyPhase_snd _ _ _ _ hs2.1, bodyPhase_snd _ _ _ _ hc.1]
+      congr 1
+      unfold bodyExpected bodyVerdict
+      cases data with
+      | nil => rfl
+      | cons x xs =>
+        simp only
+        cases ho1 : outcome (x :: xs) with
+        | rewrite nd0 =>
+          obtain ⟨hne, hacc⟩ := H nd0 ho1
+          simp only
+          cases nd0 with
+          | nil => exact absurd rfl hne
+          | cons y ys => rcases hacc with hacc | hacc <;> simp only [hacc]
+        | reject => simp only [ho1]
+        | accept => simp only [ho1]
+        | rewriteFails => simp only [ho1]
+    · rfl
 
 end KinModel.C13.Stream
